@@ -953,6 +953,12 @@ def build_workload(run, model):
             except Exception as e:
                 run.notes.append("c14 workload: render2000 failed (%s)" % type(e).__name__)
         add("read", text=TC.render3000(mm, rng), src="rendered-v3000:%d" % k)
+    # V2000: a D / T symbol in the atom block and an M  ISO entry naming the same atom with another mass (the ISO entry wins)
+    mm = TC.MM([["O", 0, 0, 0, "0.0000", "0.0000", "0.0000"], ["D", 0, 0, 0, "1.0000", "0.0000", "0.0000"], ["T", 0, 0, 0, "0.0000", "1.0000", "0.0000"]],
+               [[1, 0, 1], [1, 0, 2]], [], "c14:DT+ISO")
+    base = TC.render2000(mm, rng, charge_mode="lines")
+    for iso in ("M  ISO  2   2   3   3   2", "M  ISO  1   2   1", "M  ISO  2   3  14   1  18"):
+        add("read", text=base.replace("M  END", iso + "\nM  END"), src="rendered-v2000:DT+ISO")
     # molecules
     stream = [am for am in gens.standard_stream(rng, "quick") if am.n() <= 40]
     mols = rng.sample(stream, 34)
